@@ -59,18 +59,18 @@ var c08truth = map[string]map[string]string{
 var c08keys = []string{"k1", "k2", "k3", "k4", "k5", "k6", "x"}
 
 type c08env struct {
-	sc          *statecache.StateCache
-	bcC, bcD    *statecache.BlockCache
-	bcD2        *statecache.BlockCache
-	tcD2        *statecache.TransactionCache
-	bcE         *statecache.BlockCache
-	tcD         *statecache.TransactionCache
-	mu          sync.Mutex
-	reads       []c08read
-	committed   map[string]*int32
-	useE        bool
-	bcB2, bcF   *statecache.BlockCache
-	extra       []string // blocks (beyond A, B, C) whose commits complete during the scenario: swept at the end
+	sc        *statecache.StateCache
+	bcC, bcD  *statecache.BlockCache
+	bcD2      *statecache.BlockCache
+	tcD2      *statecache.TransactionCache
+	bcE       *statecache.BlockCache
+	tcD       *statecache.TransactionCache
+	mu        sync.Mutex
+	reads     []c08read
+	committed map[string]*int32
+	useE      bool
+	bcB2, bcF *statecache.BlockCache
+	extra     []string // blocks (beyond A, B, C) whose commits complete during the scenario: swept at the end
 }
 
 func c08commitBlock(sc *statecache.StateCache, hash, prev string, round int64, set map[string]string, remove []string) {
